@@ -19,8 +19,20 @@ namespace Sexp
 
 def natStr (n : Nat) : String := String.ofList (PrintData.natDec n)
 
+/-- `ListToArray` succeeds: the chain of pairs ends in `SexpNull` -/
+def isProper : Sexp → Bool
+  | .pair _ t => isProper t
+  | .null => true
+  | _ => false
+
+def isComment : Sexp → Bool
+  | .comment _ _ => true
+  | _ => false
+
 mutual
-/-- the token of the Pratt model that the parser's expression stands for -/
+/-- the token of the Pratt model that the parser's expression stands for. Comments are dropped
+from arrays and proper lists at every depth, as `LoadExpressions` does before it generates code
+(`FilterArray(expressions, RemoveCommentsFilter)`, zygo/comment.go). -/
 def toSx : Sexp → Sx
   | .int v => .lit (String.ofList (PrintData.itoa v))
   | .uint v => .other true (natStr v ++ "ULL")
@@ -34,17 +46,18 @@ def toSx : Sexp → Sx
   | .semicolon => .semi
   | .null => .null
   | .endS => .null
-  | .pair h t => .list (h.toSx :: tailSx t)
+  | .pair h t => .list (if isProper t && isComment h then tailSx true t else h.toSx :: tailSx (isProper t) t)
   | .array es _ => .arr (listSx es)
   | .emptyHash => .hash
-/-- the elements of a list (an improper tail is kept as a last element) -/
-def tailSx : Sexp → List Sx
-  | .pair h t => h.toSx :: tailSx t
+/-- the elements of a list; `flt`: the list is proper and its comments are dropped (an improper
+list is not filtered by the code, its tail is kept as a last element) -/
+def tailSx (flt : Bool) : Sexp → List Sx
+  | .pair h t => if flt && isComment h then tailSx flt t else h.toSx :: tailSx flt t
   | .null => []
   | x => [x.toSx]
 def listSx : List Sexp → List Sx
   | [] => []
-  | e :: r => e.toSx :: listSx r
+  | e :: r => if isComment e then listSx r else e.toSx :: listSx r
 end
 
 end Sexp
